@@ -15,10 +15,10 @@ import (
 
 // Specs lists the checks this world binary serves.
 func Specs() []kernel.Spec {
-	return c13LockSpecs([]kernel.Spec{
+	return c12LockSpecs(c13LockSpecs([]kernel.Spec{
 		{Prop: "C13", Mk: newC13, Limits: kernel.Limits{MaxSteps: 120, SettleSteps: 60}},
 		{Prop: "C12", Mk: newC12, Limits: kernel.Limits{MaxSteps: 200, SettleSteps: 120}},
-	})
+	}))
 }
 
 func TestSim(t *testing.T) { kernel.Main(t, "client", Specs()) }
